@@ -401,10 +401,21 @@ where
     }
     fn bare_de(&self, bytes: &[u8], ver: u32) -> Outcome<(Vec<Val>, usize)> {
         let (o, consumed) = bare_de_impl::<C>(bytes, ver);
-        o.map(|x| match x.to_val() {
-            Val::Seq(items) => (items, consumed),
-            other => (vec![other], consumed),
-        })
+        match o {
+            Outcome::Ok(x) => {
+                if !x.valid_bits() {
+                    // e.g. an enum tag that is not a declared discriminant: do not act on it
+                    std::mem::forget(x);
+                    return Outcome::Err("HarnessInvalidBitPattern".into(), "bulk read produced an invalid bool / char / enum bit pattern".into());
+                }
+                match x.to_val() {
+                    Val::Seq(items) => Outcome::Ok((items, consumed)),
+                    other => Outcome::Ok((vec![other], consumed)),
+                }
+            }
+            Outcome::Err(a, b) => Outcome::Err(a, b),
+            Outcome::Panic(m) => Outcome::Panic(m),
+        }
     }
     fn fixed_len(&self) -> Option<usize> {
         self.1
